@@ -13,7 +13,7 @@ use std::rc::Rc;
 
 // ---------------------------------------------------------------------------------------------
 // terms
-#[derive(Clone, Debug, PartialEq, Eq, Hash, PartialOrd, Ord)]
+#[derive(Clone, Debug, PartialEq, Eq, Hash, PartialOrd, Ord, serde::Serialize, serde::Deserialize)]
 pub enum T {
     Null,
     Bool,
@@ -123,7 +123,7 @@ pub fn named_schemas(defs: &Defs) -> Vec<NamedSchema> {
 
 // ---------------------------------------------------------------------------------------------
 // values: JSON-like trees. A property is present or absent (no `undefined` value).
-#[derive(Clone, Debug, PartialEq, Eq, Hash, PartialOrd, Ord)]
+#[derive(Clone, Debug, PartialEq, Eq, Hash, PartialOrd, Ord, serde::Serialize, serde::Deserialize)]
 pub enum V {
     Null,
     Bool(bool),
